@@ -42,7 +42,7 @@ impl RQSC {
 
         let mut header = TableHeader {
             signature: *b"RQSC",
-            length: (TableHeader::len() as u32).into(),
+            length: (TableHeader::len() as u32 + size_of::<u32>() as u32).into(),
             revision: 1,
             checksum: 0,
             oem_id,
